@@ -89,7 +89,7 @@ impl WorldCfg {
     pub fn swarm(rng: &mut Rng) -> Self {
         WorldCfg {
             n_groups: if rng.chance(1, 5) { 2 } else { 1 },
-            n_banks: rng.range(2, 5) as usize,
+            n_banks: if rng.chance(1, 12) { rng.range(8, 10) as usize } else { rng.range(2, 5) as usize },
             n_users: rng.range(2, 5) as usize,
             magnitude: *rng.pick(&[0u8, 0, 1, 1, 1, 2]),
             allow_t22: rng.chance(2, 3),
